@@ -66,7 +66,7 @@ fn state_b() -> Resp {
 
 /// state A, one poll   [C11, C12]
 #[kani::proof]
-#[kani::unwind(4)]
+#[kani::unwind(2)]
 fn and_then_poll_from_state_a() {
     let mut f = state_a();
     let w = any_w();
@@ -105,7 +105,7 @@ fn and_then_poll_from_state_a() {
 
 /// state B, one poll: the result is the second stage's answer; stage one is not touched, stage two not called again
 #[kani::proof]
-#[kani::unwind(4)]
+#[kani::unwind(2)]
 fn and_then_poll_from_state_b() {
     let mut f = state_b();
     let w = any_w();
@@ -227,7 +227,7 @@ fn and_then_factory_run_to_completion() {
 }
 
 #[kani::proof]
-#[kani::unwind(4)]
+#[kani::unwind(2)]
 fn reach() {
     let mut f = state_a();
     let wk = mk_waker(0);
